@@ -446,7 +446,7 @@ Proof.
       * intros n [<-|Hn]; auto.
       * intros u. destruct (Nat.eq_dec u t) as [->|Hu].
         -- unfold fs_ok. rewrite upd_same. cbn. rewrite upd_same. cbn. split; [left; auto|exact Wt].
-        -- apply (fs_ok_other (base x) _ (fs x)); cbn; auto. Show.
+        -- apply (fs_ok_other (base x) _ (fs x)); cbn; auto; try (rewrite upd_other by auto; reflexivity).
            intros r Er Hr. apply (holds_upd (base x) _ t _ Et). destruct (Nat.eq_dec r t) as [->|]; auto.
            exfalso. unfold holds in Hr. rewrite <- HT, Hpc in Hr. destruct Hr as [[? _]|[? _]]; discriminate.
       * intros r n Hn. apply (holds_upd (base x) _ t _ Et) in Hn. destruct (Nat.eq_dec r t) as [->|].
@@ -460,7 +460,7 @@ Proof.
         eapply lok_bump. apply Il.
       * rewrite replay_app, Ihi. cbn [s' cell_upd head]. cbn.
         assert (E1 : (head (base x) =? -1)%Z = false) by (apply Z.eqb_neq; congruence).
-        rewrite E1. cbn. f_equal. f_equal. symmetry. apply Z.eqb_neq. lia.
+        rewrite E1. cbn. reflexivity.
     + unfold cas_fail. cbn [fst].
       destruct NS as [Ft Wt]; [intros [?|?]; discriminate|].
       frame I t.
@@ -487,7 +487,7 @@ Proof.
       * destruct Ft0 as [N _]. exfalso. apply N. left; auto.
       * split; [right; auto|tauto].
       * destruct Ft0 as (A & B & C). split; [right; auto|]. split; auto.
-        apply (holds_upd (base x) _ t (with_pc T WSleep) eq_refl).
+        match goal with |- holds ?S0 _ _ => apply (holds_upd (base x) S0 t (with_pc T WSleep) eq_refl) end.
         destruct (Nat.eq_dec r t) as [->|]; auto.
         exfalso. unfold holds in C. rewrite <- HT, Hpc in C. destruct C as [[? _]|[? _]]; discriminate.
       * destruct Ft0; discriminate.
@@ -507,7 +507,7 @@ Proof.
     + intros u. thr_cases u t; [|apply Iwq]. split; [discriminate|]. intros Hi. apply Iwq in Hi. congruence.
     + intros u. destruct (Nat.eq_dec u t) as [->|Hu].
       * unfold fs_ok. rewrite upd_same. cbn. rewrite !upd_same. cbn. split; auto. intros [?|?]; discriminate.
-      * apply (fs_ok_other (base x) _ (fs x)); cbn; auto; [rewrite upd_other; auto|rewrite upd_other; auto|rewrite upd_other; auto| |apply If].
+      * apply (fs_ok_other (base x) _ (fs x)); cbn; auto; try (rewrite upd_other by auto; reflexivity).
         intros r Er Hr. apply (holds_upd (base x) _ t _ Et). destruct (Nat.eq_dec r t) as [->|]; auto.
         exfalso. unfold holds in Hr. rewrite <- HT, Hpc in Hr. destruct Hr as [[? _]|[? _]]; discriminate.
     + intros r n Hn. apply (holds_upd (base x) _ t _ Et) in Hn. destruct (Nat.eq_dec r t) as [->|].
@@ -626,7 +626,7 @@ Proof.
               cbn. rewrite upd_other by auto. destruct If as [A B]. split; auto. split; auto.
               apply (holds_upd (base x) _ t _ Et). destruct (Nat.eq_dec t t); [|congruence].
               left. cbn. split; auto. rewrite <- Hu. unfold h. lia.
-           ++ apply (fs_ok_other (base x) _ (fs x)); cbn; auto; [rewrite upd_other; auto|rewrite upd_other; auto| |apply If].
+           ++ apply (fs_ok_other (base x) _ (fs x)); cbn; auto; try (rewrite upd_other by auto; reflexivity).
               intros r0 Er0 Hr. apply (holds_upd (base x) _ t _ Et). destruct (Nat.eq_dec r0 t) as [->|]; auto.
               exfalso. unfold holds in Hr. rewrite <- HT, Hpc in Hr. destruct Hr as [[? _]|[? _]]; discriminate.
       * intros r0 n Hn. apply (holds_upd (base x) _ t _ Et) in Hn. destruct (Nat.eq_dec r0 t) as [->|].
